@@ -155,6 +155,13 @@ Section Dict.
     | (k0, v) :: r => if keq k0 k then r else (k0, v) :: dict_remove r k
     end.
 
+  (* d[k] = v: an existing key keeps its place (and its key object) *)
+  Fixpoint dict_set (d : dict) (k : K) (v : V) : dict :=
+    match d with
+    | [] => [(k, v)]
+    | (k0, v0) :: r => if keq k0 k then (k0, v) :: r else (k0, v0) :: dict_set r k v
+    end.
+
   Definition dict_keys (d : dict) : list K := map fst d.
   Definition dict_values (d : dict) : list V := map snd d.
   Definition dict_nonempty (d : dict) : bool := match d with [] => false | _ => true end.
